@@ -1436,7 +1436,7 @@ def validate_journeys(ctx, trace_path, parts):
     lines = open(trace_path).read().splitlines()
     journeys, cur = [], []
     for ln in lines:
-        if ln.startswith('{"ev":"put"') or '"ev":"put"' in ln[:40]:
+        if json.loads(ln).get("ev") == "put":
             if cur:
                 journeys.append(cur)
             cur = []
